@@ -19,6 +19,9 @@ pub fn dispatch(f: &[&str]) -> String {
         "digits" => { let x = p_dec(f[2]); if f[1] == "digits" { x.digits().to_string() } else { x.to_ref().count_digits().to_string() } }
         "accessors" => accessors(f[1]),
         "to_owned_with_scale" => f_dec(&p_dec(f[1]).to_ref().to_owned_with_scale(f[2].parse().unwrap())),
+        "sum" => { let items: Vec<BigDecimal> = if f[2].is_empty() { vec![] } else { f[2].split(',').map(p_dec).collect() };
+                   if f[1] == "ref" { f_dec(&items.iter().sum::<BigDecimal>()) } else { f_dec(&items.into_iter().sum::<BigDecimal>()) } }
+        "cmp" => cmp_op(f[1], f[2], f[3]),
         "to_prim" => to_prim(f[1], f[2], f[3]),
         "to_bigint" => match p_dec(f[1]).to_bigint() { Some(v) => v.to_string(), None => "None".to_string() },
         "is_integer" => p_dec(f[1]).is_integer().to_string(),
@@ -199,4 +202,20 @@ fn accessors(a: &str) -> String {
     if BigDecimal::new(i.clone(), s).as_bigint_and_exponent() != (i.clone(), s) { bad.push("new"); }
     if BigDecimal::from_bigint(i.clone(), s).as_bigint_and_exponent() != (i.clone(), s) { bad.push("from_bigint"); }
     if bad.is_empty() { "ok".to_string() } else { bad.join(",") }
+}
+
+fn cmp_op(func: &str, a: &str, b: &str) -> String {
+    let x = p_dec(a);
+    let y = p_dec(b);
+    let ord = |o: std::cmp::Ordering| format!("{:?}", o);
+    match func {
+        "eq" => (x == y).to_string(),
+        "ref_eq_ref" => (x.to_ref() == y.to_ref()).to_string(),
+        "ref_eq_borrow" => (x.to_ref() == &y).to_string(),
+        "cmp" => ord(x.cmp(&y)),
+        "ref_cmp" => ord(x.to_ref().cmp(&y.to_ref())),
+        "partial_cmp" => match x.partial_cmp(&y) { Some(o) => ord(o), None => "None".to_string() },
+        "ref_partial_cmp" => match x.to_ref().partial_cmp(&y.to_ref()) { Some(o) => ord(o), None => "None".to_string() },
+        _ => "UNKNOWN-CMP".to_string(),
+    }
 }
